@@ -4,9 +4,10 @@ Translator for C20:  /repo (live classes + AST of payload_dataclass.type_map)  -
 Generated:
   registeredFormats   names registered in a fresh ipv8.messaging.serialization.Serializer (live object)
   overlayFormats      names added by overlays through add_packer (found by AST search for add_packer("<lit>", ...))
-  typeMapTable        the literal table of type_map: leading statements `if t is <builtin>: return "<fmt>"`
-  arrayPrefix         the literal prefix of the f-string returned for list[T]/tuple[T]/set[T]
-  typeVarBranch       whether `if isinstance(t, TypeVar): return t.__name__` is present
+  typeMapTable        what the live type_map returns on bool/int/float/bytes/str (finite domain, so this IS the function
+                      there), cross-checked with the literal table in the source when its shape is recognised
+  arrayPrefix         type_map(list[int]) minus type_map(int)
+  typeVarBranch       whether type_map(type_from_format(x)) == x
   shipped             every VariablePayload subclass defined in the ipv8 package outside ipv8.test:
                       format_list (strings / nested classes / [class]), names, hooks found with dir(), and the
                       `__init__` defined in the class body, if any (parameters must be exactly the field names,
@@ -95,39 +96,62 @@ def class_init_info(cls):
     return None, []
 
 
-def type_map_table():
+NATIVE_TYPES = [("bool", bool), ("int", int), ("float", float), ("bytes", bytes), ("str", str)]
+
+
+def type_map_table_ast():
+    """the literal table as written in the source (`if t is X: return "fmt"` chain, `==` accepted, or a dict literal
+    {X: "fmt", ...}); None when the source has another shape (the live table below is what the theorems use)"""
     path = REPO / "ipv8/messaging/payload_dataclass.py"
     tree = ast.parse(path.read_text())
     fn = next((n for n in tree.body if isinstance(n, ast.FunctionDef) and n.name == "type_map"), None)
     if fn is None:
-        raise TranslatorError("type_map not found")
-    if [a.arg for a in fn.args.args] != ["t"]:
-        raise TranslatorError("type_map: unexpected parameters")
-    table, prefix, tv = [], None, False
-    body = [s for s in fn.body if not (isinstance(s, ast.Expr) and isinstance(s.value, ast.Constant))]
-    i = 0
-    while i < len(body):
-        st = body[i]
+        return None
+    table = []
+    for st in ast.walk(fn):
         if (isinstance(st, ast.If) and isinstance(st.test, ast.Compare) and len(st.test.ops) == 1
-                and isinstance(st.test.ops[0], ast.Is) and isinstance(st.test.left, ast.Name) and st.test.left.id == "t"
+                and isinstance(st.test.ops[0], (ast.Is, ast.Eq)) and isinstance(st.test.left, ast.Name)
                 and isinstance(st.test.comparators[0], ast.Name) and len(st.body) == 1
                 and isinstance(st.body[0], ast.Return) and isinstance(st.body[0].value, ast.Constant)
-                and isinstance(st.body[0].value.value, str) and not st.orelse):
+                and isinstance(st.body[0].value.value, str)):
             table.append((st.test.comparators[0].id, st.body[0].value.value))
-            i += 1
-        else:
-            break
-    for st in body[i:]:
-        if isinstance(st, ast.If) and ast.unparse(st.test) == "isinstance(t, TypeVar)" and len(st.body) == 1 \
-                and ast.unparse(st.body[0]) == "return t.__name__":
-            tv = True
-        for node in ast.walk(st):
-            if isinstance(node, ast.JoinedStr) and node.values and isinstance(node.values[0], ast.Constant):
-                prefix = node.values[0].value
     if not table:
-        raise TranslatorError("type_map: no literal `if t is X: return \"fmt\"` table found")
-    if prefix is None:
-        raise TranslatorError("type_map: no f-string for collection types found")
+        for node in ast.walk(tree):
+            if isinstance(node, ast.Dict) and node.keys and all(isinstance(k, ast.Name) for k in node.keys) \
+                    and all(isinstance(v, ast.Constant) and isinstance(v.value, str) for v in node.values) \
+                    and {k.id for k in node.keys} >= {"bool", "int"}:
+                table = [(k.id, v.value) for k, v in zip(node.keys, node.values)]
+    return table or None
+
+
+def type_map_table():
+    """what type_map RETURNS on the five native types, the collection prefix and the TypeVar rule, read off the live
+    function (robust against rewrites of its body); cross-checked with the literal table in the source when that
+    has a recognisable shape"""
+    if str(REPO) not in sys.path:
+        sys.path.insert(0, str(REPO))
+    from ipv8.messaging.payload_dataclass import type_from_format, type_map
+    table = []
+    for name, t in NATIVE_TYPES:
+        try:
+            r = type_map(t)
+        except Exception as e:  # noqa: BLE001
+            raise TranslatorError(f"type_map({name}) raises {type(e).__name__}") from e
+        if not isinstance(r, str):
+            raise TranslatorError(f"type_map({name}) is not a format name: {r!r}")
+        table.append((name, r))
+    try:
+        arr = type_map(list[int])
+        tv = type_map(type_from_format("c20s")) == "c20s"
+    except Exception as e:  # noqa: BLE001
+        raise TranslatorError(f"type_map on list[int] / TypeVar raises {type(e).__name__}") from e
+    base = dict(table)["int"]
+    if not (isinstance(arr, str) and arr.endswith(base)):
+        raise TranslatorError(f"type_map(list[int]) = {arr!r} is not <prefix> + type_map(int)")
+    prefix = arr[:len(arr) - len(base)]
+    lit = type_map_table_ast()
+    if lit is not None and dict(lit) != {k: v for k, v in table if k in dict(lit)}:
+        raise TranslatorError(f"literal table in the source {lit} disagrees with what type_map returns {table}")
     return table, prefix, tv
 
 
